@@ -55,6 +55,9 @@ PickGen2 ==
                      <<Con(0, 1, << <<0, 0>>, <<TreeSize(p[1]) - 1, TreeSize(p[2]) - 1>> >>)>> },
        en \in {<<>>, <<End(1, "END")>>} :
       inp = GenRec([A |-> D(p[1], "PA"), B |-> D(p[2], "PB")], <<"A", "B">>, cn, en, <<>>)
+PickGen2s ==
+  \E cn \in { <<Con(0, 1, << <<a, b>> >>)>> : a \in {0, 2}, b \in {0, 2} } \cup { <<Con(1, 0, << <<2, 0>> >>)>> }, en \in {<<>>, <<End(1, "END")>>} :
+      inp = GenRec([A |-> D([lev |-> 2, br |-> 2], "PA"), B |-> D([lev |-> 3, br |-> 1], "PB")], <<"A", "B">>, cn, en, <<>>)
 \* up to three instances of two definitions, up to two connect records, terminal renamings, labels
 SizeOf(defs, seq, x) == TreeSize(defs[seq[x + 1]])
 Cands(defs, seq) ==
@@ -100,9 +103,13 @@ MCPick == CASE Fam = "fasta" -> PickFasta(P1, P2)
             [] Fam = "plain" -> (PickTxt(P1) \/ PickSeqList(3, 3) \/ PickJson(3))
             [] Fam = "gen"   -> (PickGen1 \/ PickGen2 \/ PickGen3(P1))
             [] Fam = "ds"    -> (PickDsAll(P1, P2) \/ PickDsBad(3))
-            [] Fam = "sensfile" -> (PickFasta(2, 2) \/ PickIg(3, 3) \/ PickTxt(2))
-            [] Fam = "sensgen"  -> (PickGen1 \/ PickGen3(1))
-            [] Fam = "sensds"   -> PickDsAll(4, 3)
+            \* circular protein .ig files only (classification of the known finding ig-circular-protein-name-truncated)
+            [] Fam = "igcp"  -> (\E sl \in {x \in Slices(P1, P2) : x.kind = "PROTEIN"} : \E t \in SeqsUpTo(sl.S, 3, sl.L) :
+                                   \E l \in Comp(Len(t)) : inp = FileRec("ig", sl.kind, t, l, TRUE, FALSE, TRUE))
+            \* small instances of the sensitivity runs (one per deviation flag)
+            [] Fam = "sensfile" -> (PickFasta(1, 2) \/ PickIg(1, 3) \/ PickTxt(2))
+            [] Fam = "sensgen"  -> (PickGen1 \/ PickGen2s)
+            [] Fam = "sensds"   -> PickDsAll(3, 3)
 Init == MCPick /\ InitRest
 Spec == Init /\ [][Next]_vars
 =============================================================================
